@@ -1,0 +1,13 @@
+//go:build verif
+
+package utils
+
+// VerifSink receives verification trace events when built with -tags verif.
+var VerifSink func(ev string, a ...interface{})
+
+// VerifEmit forwards an event to VerifSink, if one is installed.
+func VerifEmit(ev string, a ...interface{}) {
+	if VerifSink != nil {
+		VerifSink(ev, a...)
+	}
+}
